@@ -814,7 +814,7 @@ C_AND      = partial(ca_type,  opcode=0b01, funct2=0b11, funct6=0b100011)
 C_J        = partial(cj_type,  opcode=0b01, funct3=0b101)
 C_BEQZ     = partial(cb_type,  opcode=0b01, funct3=0b110)
 C_BNEZ     = partial(cb_type,  opcode=0b01, funct3=0b111)
-C_SLLI     = partial(ci_type,  opcode=0b10, funct3=0b000, cs=[RegRdRs1NotZero, ImmNotZero])
+C_SLLI     = partial(ci_type,  opcode=0b10, funct3=0b000, cs=[RegRdRs1NotZero, ImmNotZero, ShamtBit5Zero])
 C_LWSP     = partial(cil_type, opcode=0b10, funct3=0b010, cs=[RegRdRs1NotZero])
 C_JR       = partial(cr_type,  opcode=0b10, funct4=0b1000, rs2=0, cs=[RegRdRs1NotZero])  # special syntax
 C_MV       = partial(cr_type,  opcode=0b10, funct4=0b1000, cs=[RegRdRs1NotZero, RegRs2NotZero])
